@@ -3187,6 +3187,12 @@ func (db *DB) importToLTX(ctx context.Context, r io.Reader) (ltx.Pos, error) {
 		return ltx.Pos{}, fmt.Errorf("close ltx file: %s", err)
 	}
 
+	// Ensure node is still the primary before final commit step: the image may
+	// have taken a long time to arrive.
+	if !db.store.IsPrimary() {
+		return ltx.Pos{}, ErrReadOnlyReplica
+	}
+
 	// Atomically rename the file
 	if err := db.os.Rename("IMPORTTOLTX", tmpPath, ltxPath); err != nil {
 		return ltx.Pos{}, fmt.Errorf("rename ltx file: %w", err)
